@@ -27,6 +27,7 @@ CHECKS = {
     "C19": {"stages": [("plain", "c19", 0.5, []), ("asan", "c19", 0.5, [])], "level": "fault_enumeration"},
 }
 TIER_SECONDS = {"quick": 75, "thorough": 1500}
+HANG_LIMIT = {"quick": 60.0, "thorough": 300.0}     # seconds without any output from a worker
 
 REAL_VS_STUB = {
     "amgcl headers (compiled from /repo working tree)": "real",
@@ -125,7 +126,7 @@ def run_stage(pid, flavour, binary, seconds, tier, seed, nworkers, extra, known_
         wk.start()
         workers.append(wk)
     crashes = []
-    hang_limit = max(120.0, seconds)
+    hang_limit = HANG_LIMIT[tier]
     active = list(workers)
     restarts = 0
     while active:
@@ -193,8 +194,11 @@ def classify_crash(pid, crash, seed, tier, replay_dir, known):
            "--replay-dir", replay_dir]
     outs = []
     for attempt in range(2):
+        if attempt == 1 and outs[0][0] == -9:
+            outs.append(outs[0])       # a replayed hang is not replayed twice
+            break
         try:
-            p = subprocess.run(cmd, stdout=subprocess.PIPE, stderr=subprocess.PIPE, env=env, cwd=ROOT, timeout=900)
+            p = subprocess.run(cmd, stdout=subprocess.PIPE, stderr=subprocess.PIPE, env=env, cwd=ROOT, timeout=HANG_LIMIT[tier])
             outs.append((p.returncode, p.stdout.decode("utf-8", "replace"), p.stderr.decode("utf-8", "replace")))
         except subprocess.TimeoutExpired as e:
             outs.append((-9, (e.stdout or b"").decode("utf-8", "replace"), "timeout"))
@@ -404,6 +408,7 @@ COMMON_ASSUMPTIONS = [
 ]
 ASSUMPTIONS = {}
 RULES = {
+    "C19": "case = (format mm_sparse|mm_dense|bin_crs|bin_dense, value type double|float|complex|integer, index type, shape, row range, mode); modes: fault-free round trip (full + row range, bitwise vs the written model, symmetric storage), explicit fault ops on the image (truncate/flip/set/zero_tail/drop_line/dup_line, 1-3 per case, biased to banner/size line/index fields/ptr section), exhaustive truncation sweep of one small image (every byte offset), value-kind and storage-kind mismatch, corrupted banner keyword, inconsistent size fields; evaluations counts cases (a truncation sweep is one case with one read per byte offset, reads are in counters.damaged_reads); non-trivial = image actually damaged / non-empty matrix; distinct by hash(image bytes, ops, range)",
     "C10": "world = (valid input incl. 1x1/diagonal/disconnected/positive-offdiagonal/Dirichlet-row/n<coarse_enough/max_levels=1, kind in amg|relaxation-as-preconditioner|zero-copy amg|skyline_lu, run-time configuration, nt, pre-history of 0-3 unrelated solves); each world is executed under 4 simulated heaps (clean + 3 drawn from fill 00/ff/aa/snan/random x LIFO recycling x address shift) plus a ledger pass, and once per world under ASan+UBSan in the asan stage; non-trivial = degenerate input or >=2 levels; distinct by hash(matrix, configuration)",
     "C09": "world = (component, matrix family/size/seed, nt, schedule strategy+seed); a case is non-trivial when nt>=2, the world under test took >=1 deviation from the canonical schedule and the matrix has >=2 rows; distinct by hash(matrix, component, nt, deviation list, configuration)",
 }
